@@ -13,7 +13,7 @@ pub struct C10;
 
 fn cfg(tier: Tier) -> ProgCfg {
     ProgCfg {
-        mix: OpMix { write: 12, remove: 5, remove_fully: 1, idx_insert: 2, idx_delete: 1, link_to: 2, damage_content: 2, remove_hash: 1, ..OpMix::NONE },
+        mix: OpMix { write: 12, remove: 5, remove_fully: 1, idx_insert: 2, idx_delete: 1, link_to: 2, damage_content: 2, remove_hash: 1, switch_cache: 1, ..OpMix::NONE },
         wmix: WriteMix { bad_decls: false, meta: true, by_hash: false, rich_matching: false, interfere: false },
         sizes: SizeMix::Small,
         keys: (1, 12),
